@@ -121,3 +121,11 @@ add('C13', 'history-based property testing with an interposed random source (os.
     'protection salt and IV; all values are pairwise distinct over the history (ephemeral points too), none is a constant pattern, and no session key occurs in any output.',
     'Trusted: refpgp.enc/keys to recover the values. Quality of the OS generator is out of scope.',
     'DESIGN.md 4/C13')
+add('C06', 'model-based history testing (three-state lock model) with byte-level and object-graph leak search, a reference decryptor for every export, and a covering matrix of reference-built foreign protected keys',
+    'Histories of protect / unlock-and-sign / unlock-and-raise / wrong passphrase / nested unlock / re-protect / export+import / copy on keys of RSA, DSA, ECDSA, EdDSA with ECDH or RSA subkeys, '
+    'all 9 ciphers x 6 S2K hashes through PGPy\'s own protect(): after each step no secret integer is in the binary or de-armored export, the reference recovers exactly the original '
+    'integers with the passphrase, the key is locked, refuses private operations and its object graph holds no secret integer. Foreign keys made by the reference for every algorithm x '
+    'usage 254/255 x simple/salted/iterated x cipher, per-component passphrases and GNU-dummy stubs must load locked, refuse the wrong passphrase, work inside the scope and be locked and '
+    'wiped after it.',
+    'Trusted: refpgp.keys/s2k/sym; the pooled secret integers. Detectors have positive controls (an unprotected key must trip both) checked on every run.',
+    'DESIGN.md 4/C06')
